@@ -83,11 +83,20 @@ FrTrad(gs, regional) ==
                        IF gs[3] = 0 THEN "" ELSE Fr999(gs[3], regional, TRUE) \o (IF gs[3] > 1 THEN " millions" ELSE " million")),
                 IF gs[2] = 0 THEN "" ELSE IF gs[2] = 1 THEN "mille" ELSE Fr999(gs[2], regional, FALSE) \o " mille"),
          IF gs[1] = 0 THEN "" ELSE Fr999(gs[1], regional, TRUE))
+\* hyphens inside every three-digit group, blanks between the groups and the scale words: "deux mille cent-vingt"
+FrGroupHyph(gs) ==
+  LET H(g, last) == MapCh(Fr999(g, FALSE, last), " ", "-") IN
+  IF IsZero(gs) THEN "zéro" ELSE
+  FrJoin(FrJoin(FrJoin(IF gs[4] = 0 THEN "" ELSE H(gs[4], TRUE) \o (IF gs[4] > 1 THEN " milliards" ELSE " milliard"),
+                       IF gs[3] = 0 THEN "" ELSE H(gs[3], TRUE) \o (IF gs[3] > 1 THEN " millions" ELSE " million")),
+                IF gs[2] = 0 THEN "" ELSE IF gs[2] = 1 THEN "mille" ELSE H(gs[2], FALSE) \o " mille"),
+         IF gs[1] = 0 THEN "" ELSE H(gs[1], TRUE))
 FrCard(gs, v) ==
   LET regional == EndsWith(v, "+regional")
       style == IF regional THEN DropEnd(v, 9) ELSE v
       t == FrTrad(gs, regional)
-  IN IF style = "spaces" THEN MapCh(t, "-", " ") ELSE IF style = "hyphens" THEN MapCh(t, " ", "-") ELSE t
+  IN IF v = "grouphyphens" THEN FrGroupHyph(gs)
+     ELSE IF style = "spaces" THEN MapCh(t, "-", " ") ELSE IF style = "hyphens" THEN MapCh(t, " ", "-") ELSE t
 
 (* ======================================================================= *)
 (* Spanish                                                                 *)
@@ -241,7 +250,7 @@ NlCard(gs, v) ==
 (* ======================================================================= *)
 Variants(L) ==
   CASE L = "en" -> <<"us-hyphen", "us-space", "uk-and">>
-    [] L = "fr" -> <<"trad", "spaces", "hyphens", "trad+regional", "spaces+regional", "hyphens+regional">>
+    [] L = "fr" -> <<"trad", "spaces", "hyphens", "trad+regional", "spaces+regional", "hyphens+regional", "grouphyphens">>
     [] L = "es" -> <<"masc", "fem", "noy">>
     [] L = "pt" -> <<"eu", "br", "fem">>
     [] L = "it" -> <<"compound", "noelide", "spaced", "conj">>
